@@ -22,7 +22,7 @@ from concurrent.futures import ThreadPoolExecutor
 HERE = os.path.dirname(os.path.abspath(__file__))
 VERIF = os.path.dirname(HERE)
 sys.path.insert(0, HERE)
-from mutations import M  # noqa: E402
+from mutations import EQUIVALENT, M  # noqa: E402
 
 REPO = "/repo"
 
@@ -102,6 +102,9 @@ def main():
     for r in results:
         r["tier"] = a.tier
         store[r["id"]] = r
+    for k, r in store.items():
+        if r["status"].startswith("MISSED") and k in EQUIVALENT:
+            r["status"] = "MISSED (equivalent mutant: " + EQUIVALENT[k] + ")"
     json.dump(store, open(store_path, "w"), indent=1, sort_keys=True)
     order = {m["id"]: i for i, m in enumerate(M)}
     rows = sorted(store.values(), key=lambda r: order.get(r["id"], 999))
